@@ -114,11 +114,12 @@ class Run:
     def __init__(self, prop, tier, seed):
         self.prop, self.tier, self.seed = prop, tier, seed
         self.t0 = time.time()
-        self.build = os.path.join(VERIF, 'build', prop)
+        self.build = os.path.join(os.environ.get('VERIF_BUILD_DIR') or os.path.join(VERIF, 'build'), prop)      # VERIF_BUILD_DIR: maintenance runs against scratch copies of the repository (tools/all_seeds_par.sh)
         shutil.rmtree(self.build, ignore_errors=True)
         self.dyn = os.path.join(self.build, 'dyn')
         os.makedirs(self.dyn)
-        rp = os.path.join(VERIF, 'replay')
+        rp = os.path.join(os.environ.get('VERIF_REPLAY_DIR') or VERIF, 'replay') if os.environ.get('VERIF_REPLAY_DIR') else os.path.join(VERIF, 'replay')
+        self.replay_dir = rp
         if os.path.isdir(rp):
             for f in os.listdir(rp):
                 if f.startswith(prop + '-'):
@@ -338,12 +339,12 @@ class Run:
                            {'kind': 'obligation', 'obligations': [{'name': o[0], 'detail': o[2][:3000]} for o in failed]},
                            found_input=False)
         lines = []
-        os.makedirs(os.path.join(VERIF, 'replay'), exist_ok=True)
+        os.makedirs(self.replay_dir, exist_ok=True)
         for v in self.viol:
             body = dict(v['replay']); body['property'] = self.prop; body['what'] = v['what']
             body['failed_obligations'] = [o[0] for o in failed]
             h = hashlib.sha1(json.dumps(body, sort_keys=True, default=str).encode()).hexdigest()[:10]
-            path = os.path.join(VERIF, 'replay', '%s-%s.json' % (self.prop, h))
+            path = os.path.join(self.replay_dir, '%s-%s.json' % (self.prop, h))
             json.dump(body, open(path, 'w'), indent=1, default=str)
             lines.append('VIOLATION property=%s replay=%s%s' % (self.prop, path, '' if v['found_input'] else ' no-failing-input-found'))
         # show only one no-input line when an input was found
